@@ -137,6 +137,58 @@ static void emit_class(void) {
     SPIF_OBJ_DEL(proto);
 }
 
+/* dup of values held with spare capacity (incl. more than one 4096-byte chunk of it): the copy must own at least the
+ * capacity it reports, equal the original, and survive every size-trusting mutator.  Runs in a forked child per case. */
+static void dup_probe(const char *c) {
+    static const int slacks[] = {0, 1, 19, 255, 4095, 4096, 4097, 9000};
+    unsigned k;
+    for (k = 0; k < sizeof(slacks) / sizeof(slacks[0]); k++) {
+        int p[2], st; pid_t pid; char why[128] = "died"; ssize_t r;
+        if (pipe(p)) return;
+        fflush(stdout);
+        pid = fork();
+        if (pid == 0) {
+            const char *msg = "ok"; int slack = slacks[k], i;
+            close(p[0]); alarm(10);
+            if (!strcmp(c, "mbuff")) {
+                spif_mbuff_t a = spif_mbuff_new_from_buff((spif_byteptr_t) "ab", 2, 2 + slack), b = spif_mbuff_dup(a);
+                if (!b || b == a || b->buff == a->buff) msg = "copy_shares_storage";
+                else if (b->len != 2 || memcmp(b->buff, "ab", 2)) msg = "copy_differs";
+#ifdef VH_ASAN
+                else if (b->buff && __sanitizer_get_allocated_size(b->buff) < (size_t) b->size) msg = "copy_reports_more_capacity_than_it_owns";
+#endif
+                else { for (i = 0; i < slack + 2; i++) spif_mbuff_append_from_ptr(b, (spif_byteptr_t) "z", 1); spif_mbuff_clear(b, 'q'); spif_mbuff_del(a); if (b->len != slack + 4) msg = "copy_unusable_after_original_deleted"; spif_mbuff_del(b); }
+            } else {
+                int u8 = (c[0] == 'u');
+                spif_str_t a = u8 ? (spif_str_t) spif_ustr_new_from_buff((spif_charptr_t) "ab", 3 + slack) : spif_str_new_from_buff((spif_charptr_t) "ab", 3 + slack);
+                spif_str_t b = SPIF_STR(SPIF_OBJ_DUP(SPIF_OBJ(a)));
+                if (!b || b == a || b->s == a->s) msg = "copy_shares_storage";
+                else if (b->len != 2 || strcmp((char *) b->s, "ab")) msg = "copy_differs";
+#ifdef VH_ASAN
+                else if (__sanitizer_get_allocated_size(b->s) < (size_t) b->size) msg = "copy_reports_more_capacity_than_it_owns";
+#endif
+                else {
+                    for (i = 0; i < slack + 2; i++) { if (u8) spif_ustr_append_char((spif_ustr_t) b, 'z'); else spif_str_append_char(b, 'z'); }
+                    if (u8) spif_ustr_clear((spif_ustr_t) b, 'q'); else spif_str_clear(b, 'q');
+                    SPIF_OBJ_DEL(SPIF_OBJ(a));
+                    if (b->len != slack + 4 || strlen((char *) b->s) != (size_t) b->len) msg = "copy_unusable_after_original_deleted";
+                    SPIF_OBJ_DEL(SPIF_OBJ(b));
+                }
+            }
+            if (write(p[1], msg, strlen(msg)) < 0) { }
+            _exit(0);
+        }
+        close(p[1]);
+        r = read(p[0], why, sizeof(why) - 1);
+        if (r > 0) why[r] = 0;
+        close(p[0]);
+        waitpid(pid, &st, 0);
+        if (!(WIFEXITED(st) && WEXITSTATUS(st) == 0) && r <= 0) strcpy(why, "memory_fault_or_abort");
+        printf("{\"dupprobe\":\"%s\",\"slack\":%d,\"verdict\":\"%s\"}\n", c, slacks[k], why);
+        fflush(stdout);
+    }
+}
+
 int main(int argc, char **argv) {
     size_t len; char *buf, *p; int slk = 0;
     if (argc < 2) return 2;
@@ -153,7 +205,7 @@ int main(int argc, char **argv) {
             u->null = (a[0] == 'T');
             u->k = vh_bytes(b, &u->kn, 1); u->v = vh_bytes(c, &u->vn, 1);
             snprintf(u->ktok, sizeof(u->ktok), "%s", b); snprintf(u->vtok, sizeof(u->vtok), "%s", c);
-        } else if (!strncmp(p, "end", 3)) { emit_class(); }
+        } else if (!strncmp(p, "end", 3)) { emit_class(); if (!strcmp(cls, "str") || !strcmp(cls, "ustr") || !strcmp(cls, "mbuff")) dup_probe(cls); }
         p = nl ? nl + 1 : p + strlen(p);
     }
     return 0;
